@@ -112,8 +112,8 @@ func grammars() []*g.Prod {
 		g.Seq(gfam.CapMark(g.Seq(g.Ref("Ident"), g.Ref("Ident"))), g.Grp(g.Lit("c"), '!')),
 		g.Seq(g.Grp(g.Sub(-1, sub()), '?'), id()),
 		// two optional branches that fail at the same token, the first of them one production deeper
-		g.Seq(g.Grp(g.Sub(-1, gfam.AssignOwn("T", g.Seq(g.Lit("a"), g.Lit("b"), gfam.CapMark(g.Lit("c"))))), '?'), g.Grp(g.Seq(g.Lit("a"), g.Lit("b"), gfam.CapMark(g.Lit("a"))), '?')),
-		g.Seq(g.Grp(g.Seq(g.Lit("a"), g.Lit("b"), gfam.CapMark(g.Lit("a"))), '?'), g.Grp(g.Sub(-1, gfam.AssignOwn("T", g.Seq(g.Lit("a"), g.Lit("b"), gfam.CapMark(g.Lit("c"))))), '?')),
+		g.Seq(g.Grp(g.Sub(-1, gfam.AssignOwn("T", g.Seq(g.Lit("a"), g.Lit("b"), gfam.CapMark(g.Lit("c"))))), '?'), g.Grp(g.Seq(g.Lit("a"), g.Lit("b"), gfam.CapMark(g.Lit("a"))), '?'), id()),
+		g.Seq(g.Grp(g.Seq(g.Lit("a"), g.Lit("b"), gfam.CapMark(g.Lit("a"))), '?'), g.Grp(g.Sub(-1, gfam.AssignOwn("T", g.Seq(g.Lit("a"), g.Lit("b"), gfam.CapMark(g.Lit("c"))))), '?'), id()),
 	}
 	var out []*g.Prod
 	for _, b := range bodies {
@@ -324,7 +324,7 @@ func runJob(w *hx.Worker, j job, maxLen int, only string) {
 	nShort := len(ins)
 	// a few longer inputs that contain several token types at once (identifier, string, number, comment)
 	ins = append(ins, `a "b" c`, `"x" y`, `a "b`, `b 1 "c" a`, "a \"b\"\n c", `c "c" c`)
-	ins = append(ins, "\ufeffa b", "a \ufeff b", "A b", "a B A", "B", strings.Repeat("a", 100)+" b", "b "+strings.Repeat("c", 5000), strings.Repeat("a ", 1100))
+	ins = append(ins, "a b b", "a b x", "a b c", "a b a", "a b", "\ufeffa b", "a \ufeff b", "A b", "a B A", "B", strings.Repeat("a", 100)+" b", "b "+strings.Repeat("c", 5000), strings.Repeat("a ", 1100))
 	if j.k.name == "text/scanner" {
 		ins = append(ins, "a /* x */ \"b\"", "a // x\n b")
 	} else {
